@@ -96,6 +96,10 @@ package parser
 
 //@ func (*PacketDslVisitorImpl).VisitPacketDefinition
 //@   ensures typeis(result, *model.Packet) && unbox(result, *model.Packet) != nil && model.fieldsNonNil(unbox(result, *model.Packet))
+//@   ensures [C12:D7-field-names-distinct] forall(i, 0, len(unbox(result, *model.Packet).Fields), forall(j, 0, i, unbox(result, *model.Packet).Fields[i].Name != unbox(result, *model.Packet).Fields[j].Name))
+//@   loop 0 invariant forall(i, 0, len(fields), haskey(fieldMap, fields[i].Name))
+//@   loop 0 invariant forall(i, 0, len(fields), forall(j, 0, i, fields[i].Name != fields[j].Name))
+//@   loop 1 invariant forall(i, 0, len(fields), forall(j, 0, i, fields[i].Name != fields[j].Name))
 //@   ensures [C12:D4-line] newErrorsHaveLines(self.BinModel, old(len(self.BinModel.SyntaxErrors))) && forall(i, 0, old(len(self.BinModel.SyntaxErrors)), self.BinModel.SyntaxErrors[i] == old(self.BinModel.SyntaxErrors[i]))
 //@   loop 0 invariant forall(i, 0, len(fields), fieldOK(fields[i])) && lengthOK(lengthField)
 //@   loop 0 invariant newErrorsHaveLines(self.BinModel, old(len(self.BinModel.SyntaxErrors))) && forall(i, 0, old(len(self.BinModel.SyntaxErrors)), self.BinModel.SyntaxErrors[i] == old(self.BinModel.SyntaxErrors[i])) && forall(j, 0, len(fields), haskey(positions, fields[j]) && positions[fields[j]][0] >= 1)
